@@ -21,17 +21,18 @@ POINTS_RETRACT = [("TRAVEL", "O1"), ("TRAVEL", "O2"), ("TRAVEL", "I1"), ("TRAVEL
                   ("TRAVEL", "Br"), ("TRAVEL", "N"), ("TRAVEL", "Org"), ("XONLY", "I1"), ("PRINT", "I1"), ("PRINT", "O2"), ("PRINT", "O1"),
                   ("RETRACT",), ("RECOVER",), ("WIPE", "I2"), ("WIPE", "O2"), ("ESET0",)]
 AT_AXIS = [("TRAVEL", "O2"), ("TRAVEL", "I1"), ("XONLY", "I1"), ("YONLY", "I1"), ("XONLY", "O2"), ("PRINT", "I2"),
-           ("ZMOVE", 2), ("ZMOVE", 1), ("RETRACT",), ("RECOVER",)] + AT
+           ("ZMOVE", 2), ("ZMOVE", 1), ("RETRACT",), ("RECOVER",), ("TRACKPROBE",)] + AT
 ARC_ADD = [("TRAVEL", "O1"), ("TRAVEL", "O2"), ("TRAVEL", "O3"), ("TRAVEL", "I1"), ("PRINT", "I2"), ("PRINT", "O2"),
            ("ARC", "clear"), ("ARC", "cross"), ("ARC", "under"), ("ARC", "into"), ("ADD", "R2", "r2"),
            ("ADD", "R3", "r3"), ("ZMOVE", 2), ("ZMOVE", 1), ("RAW", "M117 hi"), ("RAW", "M999")]
 MODES = [("TRAVEL", "O2"), ("TRAVEL", "I1"), ("TRAVEL", "O1"), ("PRINT", "I2"), ("PRINT", "O2"), ("TRAVEL", "H"),
-         ("RETRACT",), ("RECOVER",), ("REL",), ("ABS",), ("INCH",), ("MM",), ("ZMOVE", 2), ("XONLY", "I1")]
+         ("RETRACT",), ("RECOVER",), ("REL",), ("ABS",), ("INCH",), ("MM",), ("ZMOVE", 2), ("XONLY", "I1"),
+         ("TRACKPROBE",)]
 
 
 def scenarios(tier):
     q = tier == "quick"
-    base = dict(prop="C01", monitors=("c01",), key_depth=False, emax=1 if q else 2)
+    base = dict(prop="C01", monitors=("c01",), key_depth=False, emax=1 if q else 2, probe_kinds=("true",))
     cap = 120000 if q else 3000000
     out = [
         Scenario("c01-points-retract", World, dict(base, regions=["R"]), POINTS_RETRACT, max_states=cap,
